@@ -127,10 +127,17 @@ def gen_history(rng):
             cand = [n for n in alive if nodes[n]['op'] in ('map', 'sink', 'union')]
             if cand:
                 v = rng.choice(sorted(cand))
-                ops.append(['destroy', v])
-                edges = set(e for e in edges if e[1] != v)
-                if nodes[v]['op'] == 'sink':
-                    alive.discard(v)        # a destroyed sink is gone for good
+                if nodes[v]['op'] != 'sink' and rng.random() < 0.4:
+                    # destroy(streams=[...]): only the listed upstreams (possibly none at all) are cut off
+                    cur = sorted(a for (a, b) in edges if b == v)
+                    some = sorted(rng.sample(cur, rng.randrange(0, len(cur) + 1))) if cur else []
+                    ops.append(['destroy', v, some])
+                    edges = set(e for e in edges if not (e[1] == v and e[0] in some))
+                else:
+                    ops.append(['destroy', v])
+                    edges = set(e for e in edges if e[1] != v)
+                    if nodes[v]['op'] == 'sink':
+                        alive.discard(v)        # a destroyed sink is gone for good
         elif r < 0.95:
             u = rng.choice(sorted(n for n in alive if nodes[n]['op'] != 'sink'))
             gid = 'g%d' % len(ops)
@@ -334,6 +341,13 @@ def _check_case(case, counters, sets):
                 elif kind == 'disconnect':
                     mdl.disconnect(op[1], op[2])
                     S[op[1]].disconnect(S[op[2]])
+                elif kind == 'destroy' and len(op) > 2:
+                    for u_ in op[2]:
+                        mdl.disconnect(u_, op[1])
+                    S[op[1]].destroy(streams=[S[u_] for u_ in op[2]])
+                    counters['destroy_with_explicit_streams'] = counters.get('destroy_with_explicit_streams', 0) + 1
+                    if not op[2]:
+                        counters['destroy_with_empty_streams'] = counters.get('destroy_with_empty_streams', 0) + 1
                 elif kind == 'destroy':
                     mdl.destroy(op[1])
                     S[op[1]].destroy()
